@@ -181,6 +181,18 @@ func (in *MInst) CheckState(exp *tla.Value, call, tr *tla.Value) []engine.Div {
 		}
 		divs = append(divs, in.probe.CompareTree(part, v, call, tr, "")...)
 	})
+	// the composed view must itself be a well-formed tree (C03): listing, Stat and Open through the mount FS agree
+	if in.cfg.PropWF != "-" {
+		closure, cset := in.probe.closure()
+		view, _ := Project(in.mfs, closure)
+		seenWF := map[string]bool{}
+		for _, b := range WellFormed(view, cset) {
+			if !seenWF[b] {
+				seenWF[b] = true
+				divs = append(divs, engine.Div{Prop: in.cfg.PropWF, Sig: in.probe.sig(call, tr, "view-wf "+b), Detail: describe(view)})
+			}
+		}
+	}
 	// the mount table itself
 	want := map[string]bool{}
 	exp.F("mounts").Pairs(func(k, v *tla.Value) { want[in.probe.path(k)] = true })
